@@ -196,8 +196,22 @@ WBXML_DECLARE(WB_UTINY *) wbxml_buffer_get_cstr(WBXMLBuffer *buffer)
 
 WBXML_DECLARE(WB_BOOL) wbxml_buffer_insert(WBXMLBuffer *to, WBXMLBuffer *buffer, WB_ULONG pos)
 {
-    if ((to != NULL) && (buffer != NULL) && !to->is_static)
+    WBXMLBuffer *copy = NULL;
+    WB_BOOL ret = FALSE;
+
+    if ((to != NULL) && (buffer != NULL) && !to->is_static) {
+        if (to == buffer) {
+            /* A buffer inserted into itself: insert_data() may move or shift the bytes it reads from */
+            if ((copy = wbxml_buffer_duplicate(buffer)) == NULL)
+                return FALSE;
+
+            ret = insert_data(to, pos, copy->data, copy->len);
+            wbxml_buffer_destroy(copy);
+            return ret;
+        }
+
         return insert_data(to, pos, buffer->data, buffer->len);
+    }
 
     return FALSE;
 }
@@ -214,11 +228,24 @@ WBXML_DECLARE(WB_BOOL) wbxml_buffer_insert_cstr(WBXMLBuffer *to, const WB_UTINY 
 
 WBXML_DECLARE(WB_BOOL) wbxml_buffer_append(WBXMLBuffer *dest, WBXMLBuffer *buff)
 {
+    WBXMLBuffer *copy = NULL;
+    WB_BOOL ret = FALSE;
+
     if ((dest == NULL) || dest->is_static)
         return FALSE;
 
     if (buff == NULL)
         return TRUE;
+
+    if (dest == buff) {
+        /* A buffer appended to itself: growing 'dest' may free the bytes being appended */
+        if ((copy = wbxml_buffer_duplicate(buff)) == NULL)
+            return FALSE;
+
+        ret = wbxml_buffer_append_data(dest, wbxml_buffer_get_cstr(copy), wbxml_buffer_len(copy));
+        wbxml_buffer_destroy(copy);
+        return ret;
+    }
 
     return wbxml_buffer_append_data(dest, wbxml_buffer_get_cstr(buff), wbxml_buffer_len(buff));
 }
